@@ -8,6 +8,7 @@ CONSTANTS
   AllowExcl = TRUE
   AllowCat3 = FALSE
   AllowReuse = FALSE
+  Extras = FALSE
   AllowFindings = TRUE
 INVARIANT InvToldIsActual
 INVARIANT InvAddAligned
